@@ -245,7 +245,60 @@ func (rn *runner) corpusBlockedRecipient() {
 	}
 }
 
+//  8. DA: invalidity reports whose index lists are not shard indices (the handler stores them:
+//     known finding C07-F1), several items and several reporters per block, under thresholds
+//     0 / 0.33 / 1; the end blocker reads them in the block they arrive and in every later one
+func (rn *runner) corpusDAIndices() {
+	rn.fresh("corpus:da-indices")
+	if rn.dead {
+		return
+	}
+	w := rn.w
+	shapes := func(n int64) [][]int64 {
+		return [][]int64{{n}, {n + 1, 0}, {-1}, {-9223372036854775808, 0}, {1 << 32}, {0, 0, n - 1, n - 1}, {9223372036854775807, -1, n, 0}, {0}, {}}
+	}
+	for _, thr := range []string{"0.33", "0", "1"} {
+		ctx := w.h.Ctx()
+		p, err := w.h.App.DaKeeper.Params.Get(ctx)
+		if err != nil {
+			panic(err)
+		}
+		p.ChallengeThreshold, p.ReplicationFactor, p.SlashEpoch = thr, "5", 3
+		p.ChallengePeriod, p.ProofPeriod = 5*time.Second, 3*time.Second+500*time.Millisecond
+		p.RejectedRemovalPeriod, p.VerifiedRemovalPeriod = 6*time.Second, 7*time.Second
+		if err := p.Validate(); err != nil {
+			panic(err)
+		}
+		if err := w.h.App.DaKeeper.Params.Set(ctx, p); err != nil {
+			panic(err)
+		}
+		sh := shapes(4)
+		for start := 0; start < len(sh) && !rn.dead; start += 3 {
+			// three items per block, each with reports from accounts 2..5
+			for it := 0; it < 3 && start+it < len(sh); it++ {
+				m, uri := w.msgPublish(it%2, 4, 1)
+				w.queue("da-publish", it%2, 3_000_000, m)
+				a := 2 + (start+it)%4
+				w.queue("da-invalidity", a, 3_000_000, &datypes.MsgSubmitInvalidity{Sender: w.h.Accts[a].Addr.String(), MetadataUri: uri, Indices: sh[start+it]})
+				b := 2 + (start+it+1)%4
+				w.queue("da-invalidity", b, 3_000_000, &datypes.MsgSubmitInvalidity{Sender: w.h.Accts[b].Addr.String(), MetadataUri: uri, Indices: []int64{1, 2}})
+			}
+			rn.blockCase(time.Second, nil, "corpus:da-indices:thr="+thr+":publish+report")
+			if !rn.dead {
+				rn.blockCase(time.Second, nil, "corpus:da-indices:thr="+thr+":next")
+			}
+		}
+		for k := 0; k < 4 && !rn.dead; k++ {
+			rn.blockCase(3*time.Second+500*time.Millisecond, nil, "corpus:da-indices:thr="+thr+":resolve")
+		}
+	}
+}
+
 func (rn *runner) corpus() {
+	rn.corpusDAIndices()
+	if rn.dead {
+		rn.dead = false
+	}
 	rn.corpusBlockedRecipient()
 	rn.corpusRounding()
 	rn.corpusSubsecond()
